@@ -356,14 +356,31 @@ def evaluate(run, stream, cases, chunk=60):
     return outs, bad
 
 
+def category(case, out):
+    """Coarse class of a failing case, so that one stream reports the smallest case of EACH kind of failure."""
+    par = case.get("parent")
+    if par is not None and par.get("sibling"):
+        return "copied-instance"
+    if out["err"] is not None:
+        return "rejected"
+    if any(d.get("rstyle") in ("anon", "mul") and d.get("roles") for d in case["defs"]):
+        return "unnamed-roles"
+    return "other"
+
+
 def report(run, stream, bad, cases, outs):
     v1 = sorted([i for i, c in bad if c == 1], key=lambda i: case_size(cases[i]))
     v2 = sorted([i for i, c in bad if c == 2], key=lambda i: case_size(cases[i]))
-    for i in v1[:2]:
+    seen = {}
+    for i in v1:
+        seen.setdefault(category(cases[i], outs[i]), i)
+    for cat, i in sorted(seen.items()):
         key = "C10:" + json.dumps(cases[i], sort_keys=True)
-        run.violation(key, f"flattened bundle ports/connections violate the specification ({stream}): impl={json.dumps(outs[i])[:400]}",
-                      dict(kind="impl-violates-spec", stream=stream, case=cases[i], impl=outs[i], failing_cases=len(v1),
-                           reproducer="cd /verif && echo '{\"jobs\":[<case>]}' | PYTHONPATH=$VERIF_REPO:harness/impl /venv/bin/python harness/impl/c10.py  (case = the 'case' field of this file)"))
+        n_cat = sum(1 for j in v1 if category(cases[j], outs[j]) == cat)
+        run.violation(key, f"flattened bundle ports/connections violate the specification (stream {stream}, class {cat}): impl={json.dumps(outs[i])[:400]}",
+                      dict(kind="impl-violates-spec", stream=stream, failure_class=cat, case=cases[i], impl=outs[i], failing_cases=len(v1),
+                           failing_cases_of_class=n_cat,
+                           reproducer="./check C10 --replay <this file>   (or: echo '{\"jobs\":[<case>]}' | PYTHONPATH=$VERIF_REPO:harness/impl /venv/bin/python harness/impl/c10.py)"))
     if v2 and not v1:
         i = v2[0]
         run.violation(f"C10:{stream}:tie", f"model and implementation differ on a case of stream {stream} (specification holds on every explored input)",
